@@ -26,5 +26,7 @@ SolutionsAreTheCommonSupport ==
                 se == { AaVal(c.es, env) : env \in AaEnvs(AaFreeSeq(c.es)) }
                 sf == { AaVal(c.fs, env) : env \in AaEnvs(AaFreeSeq(c.fs)) }
             IN Cardinality(sol) = Cardinality(se \cap sf)
+\* R3 for the algorithm: the transcription of Axis.unify (AxisAlg!AuUnify) satisfies the normative clause on every pair
+ModelUnifierIsMostGeneral == UnifyClause(AuAsCase(c.es, c.fs)) = "ok"
 Dump == PrintT(ToJson(c))
 =============================================================================
